@@ -64,13 +64,16 @@ CLAIMED = {
         "design": "DESIGN.md §7 C06",
     },
     "C07": {
-        "text": "PARTIAL. Rocq theorems: the multimap laws of the operations the converters compose (C07_add_keeps_order, C07_set_keeps_others, C07_set_replaces_last: per-key value order is "
-                "preserved by add and by set on any other key; set replaces only the last value) and kernel-checked witnesses over the full container converter model (C07_pinned_refuted: the pinned "
-                "KillMode overwrite and its repair). The statement over every run of every converter (user entries keep value and per-key order, [Unit] defaults first, own section kept as "
-                "X-<name>, permitted managed choices kept, only NotifyAccess replaceable) is decided by the direct oracle on implementation output plus whole-service correspondence with the converter model; "
-                "a theorem over all converter runs is not yet proved.",
-        "note": "Trusted: Coq kernel; the converter model (validated by differential runs); the oracle's reading of the property in tools/props/C07.py; an empty last assignment of a managed setting counts as no choice (C15).",
-        "technique": "machine-checked proof in Rocq (Coq 8.16) of multimap laws + witnesses over the converter model; direct oracle and differential correspondence for the quantified statement",
+        "text": "Rocq theorems over the converter model of all seven unit types: C07_conversion_passes_through -- for every successful conversion of every unit with distinct section names "
+                "(C07_parsed_units_have_distinct_sections: every parsed unit), every (section, key) outside the own section, [Quadlet] and the five managed [Service] settings holds "
+                "pre ++ the user's values in order ++ post, where pre is only the default dependency in [Unit] After/Wants and post is empty unless the pair is in the explicit per-type "
+                "list (C07_tables); the own section and [Quadlet] are kept verbatim under X-<name>; C07_every_generated_service_passes_through states the same for the whole run "
+                "(parse, name table, sort, convert) on arbitrary file contents; C07_killmode_kept, C07_syslog_identifier_kept, C07_remain_after_exit_kept, C07_container_oneshot_kept, "
+                "C07_oneshot_type_kept: a managed setting the user chose is left exactly as written. Not proved (oracle only): non-empty WorkingDirectory in .kube/.build and Type=oneshot in .kube kept.",
+        "note": "Trusted: Coq kernel; the converter model (tied to /repo by whole-service differential runs on generated units and regenerated tables); the oracle's reading of the property in "
+                "tools/props/C07.py for the two clauses not proved; an empty last assignment of a managed setting counts as no choice (C15).",
+        "technique": "machine-checked proof in Rocq (Coq 8.16): extension relation over the state-passing converter model, one lemma per handler, composed over all converters and the whole run; "
+                     "direct oracle and differential correspondence on implementation output",
         "design": "DESIGN.md §7 C07",
     },
     "C08": {
